@@ -421,13 +421,13 @@ def step_compact(now: float, k: int, m: int, cm: int, drift: int,
                  t0: float, t1: float, t2: float, t3: float, t4: float, u0: float, u1: float,
                  dx: int, dl: float, dy: int, dm: float, who: int, act: int, tgt: int, r: float) -> bool:
     """
-    pre: _state_pre(B['tot_in'], k, m, cm, drift, (t0, t1, t2, t3, t4), (u0, u1), dx, dl, dy, dm)
+    pre: _state_pre(B['tot'] if act == 0 else B['tot_in'], k, m, cm, drift, (t0, t1, t2, t3, t4), (u0, u1), dx, dl, dy, dm)
     pre: -BIG <= now <= BIG and 0 <= r <= BIG
     pre: (act == 0 or act == 1 or act == 5) and 1 <= k + m and drift <= 1
     pre: 0 <= who < k + m and (0 <= tgt < k + m) and (act != 0 or who + tgt == 0)
     post: _
     """
-    k = _pick(k, 0, B['tot_in'])
+    k = _pick(k, 0, B['tot'])
     m = _pick(m, 0, B['m'])
     cm = _pick(cm, 0, 2 ** (k + m) - 1)
     dx = _pick(dx, -1, k + m - 1)
